@@ -1,2 +1,4 @@
-add_harness(c18_algo props/c18_algo.cc)
-add_harness(c18_grid props/c18_grid.cc)
+file(GLOB _hfiles CONFIGURE_DEPENDS ${CMAKE_CURRENT_SOURCE_DIR}/cmake.d/*.cmake)
+foreach(_f ${_hfiles})
+  include(${_f})
+endforeach()
